@@ -17,7 +17,7 @@ import re
 
 from hypothesis import strategies as st
 
-from pv.core import Sub, EnumSub, Violation, call, call_or, check, short
+from pv.core import Sub, EnumSub, Violation, call, call_or, short
 from pv.codec import build, Env, token, vtoken, is_nan_spec
 
 ASSUMPTIONS = [
@@ -38,6 +38,17 @@ KNOWN = {}
 
 COLS = ['a', 'b', 'c', 'k']
 PATTERNS = ['a', '^a', 'b$', '.', '', 'A|b']
+
+# ----------------------------------------------------------------------------- messages
+
+class _T(str):
+    """text that is already formatted (tables, conditions, call descriptions): inserted into messages verbatim"""
+
+
+def check(cond, msg, *fmt):
+    if not cond:
+        raise Violation(msg % tuple(f if isinstance(f, _T) else short(f) for f in fmt))
+
 
 # ----------------------------------------------------------------------------- reference model
 
@@ -114,6 +125,17 @@ def _as_callable(pred, args):
     return eval('lambda %s: _p(%s)' % (', '.join(args), ', '.join(args)), {'_p': pred})
 
 
+class _Rows(list):
+    """list of row tokens (compared) that prints as the plain column dict it was read from"""
+
+    def __init__(self, toks, plain):
+        list.__init__(self, toks)
+        self.plain = plain
+
+    def __repr__(self):
+        return repr(self.plain)
+
+
 def _rows(data, cols, n):
     return [tuple(token(data[c][i]) for c in cols) for i in range(n)]
 
@@ -130,7 +152,7 @@ def _table_rows(what, res, cols):
     lens = sorted(set(len(v) for v in plain.values()))
     check(len(lens) == 1, '%s: ragged result %s', what, plain)
     scols = sorted(cols)
-    return [tuple(token(plain[c][i]) for c in scols) for i in range(lens[0])]
+    return _Rows([tuple(token(plain[c][i]) for c in scols) for i in range(lens[0])], {c: plain[c] for c in scols})
 
 
 def _snapshot(d):
@@ -174,7 +196,7 @@ def _condition(spec_cond, data, env):
             pos, kw = [dict([v]) for v in values], {}
         else:
             raise ValueError(form)
-        desc = '(%s)' % ', '.join([short(p, 120) for p in pos] + ['%s = %s' % (c, short(v, 80)) for c, v in kw.items()])
+        desc = _T('(%s)' % ', '.join([short(p, 120) for p in pos] + ['%s = %s' % (c, short(v, 80)) for c, v in kw.items()]))
 
         def caller(table, method, extra=None):
             # fresh containers on every call: the code under test may not rely on (or spoil) ours
@@ -190,7 +212,7 @@ def _condition(spec_cond, data, env):
         args = spec_cond['args']
         pred = _predicate(spec_cond, data)
         f = _as_callable(pred, args)
-        desc = '(lambda %s: %s)' % (', '.join(args), spec_cond['fn'] if spec_cond['fn'] != 'table' else 'true on rows %s' % spec_cond['true_rows'])
+        desc = _T('(lambda %s: %s)' % (', '.join(args), spec_cond['fn'] if spec_cond['fn'] != 'table' else 'True exactly on the values of rows %s' % spec_cond['true_rows']))
 
         def caller(table, method, extra=None):
             return getattr(table, method)(f, **(extra or {}))
@@ -209,33 +231,34 @@ def run_partition(spec):
     scols = sorted(cols)
     snap = _snapshot(d)
     desc, caller, selected = _condition(spec['cond'], data, env)
-    tdesc = short({c: data[c] for c in cols}, 200)
+    tdesc = _T(short({c: data[c] for c in cols}, 200))
     all_rows = _rows(data, scols, n)
     sel = [i for i in range(n) if selected(i)]
+    unsel = [i for i in range(n) if i not in set(sel)]
     exp_inc = [all_rows[i] for i in sel]
-    exp_exc = [all_rows[i] for i in range(n) if i not in set(sel)]
+    exp_exc = [all_rows[i] for i in unsel]
     no_cond = spec['cond']['kind'] == 'filters' and not spec['cond']['conds']
 
     inc = call('dictable(%s).inc%s' % (tdesc, desc), caller, d, 'inc')
-    got_inc = _table_rows('dictable(%s).inc%s' % (tdesc, desc), inc, cols)
-    _unchanged('inc%s' % desc, d, snap)
+    got_inc = _table_rows(_T('dictable(%s).inc%s' % (tdesc, desc)), inc, cols)
+    _unchanged(_T('inc%s' % desc), d, snap)
     if no_cond:
-        check(got_inc == all_rows, 'inc() with no condition is not the identity on %s: rows %s', tdesc, got_inc)
-    check(got_inc == exp_inc, 'dictable(%s).inc%s returned rows %s (columns %s); the rows satisfying the condition, in order, are %s',
-          tdesc, desc, got_inc, scols, exp_inc)
+        check(list(got_inc) == all_rows, 'inc() with no condition is not the identity on dictable(%s): it returned %s', tdesc, got_inc)
+    check(list(got_inc) == exp_inc, 'dictable(%s).inc%s returned %s; the rows satisfying the condition are rows %s of the table, in that order',
+          tdesc, desc, got_inc, sel)
 
     if not no_cond:
         exc = call('dictable(%s).exc%s' % (tdesc, desc), caller, d, 'exc')
-        got_exc = _table_rows('dictable(%s).exc%s' % (tdesc, desc), exc, cols)
-        _unchanged('exc%s' % desc, d, snap)
-        check(got_exc == exp_exc, 'dictable(%s).exc%s returned rows %s (columns %s); the rows NOT satisfying the condition, in order, are %s',
-              tdesc, desc, got_exc, scols, exp_exc)
+        got_exc = _table_rows(_T('dictable(%s).exc%s' % (tdesc, desc)), exc, cols)
+        _unchanged(_T('exc%s' % desc), d, snap)
+        check(list(got_exc) == exp_exc, 'dictable(%s).exc%s returned %s; the rows NOT satisfying the condition are rows %s of the table, in that order',
+              tdesc, desc, got_exc, unsel)
         check(len(got_inc) + len(got_exc) == n, 'inc%s and exc%s hold %s + %s rows of a table of %s', desc, desc, len(got_inc), len(got_exc), n)
 
     # idempotent: the same condition applied to the result selects all of it
     again = call('dictable(%s).inc%s.inc%s' % (tdesc, desc, desc), caller, inc, 'inc')
-    got_again = _table_rows('inc%s applied twice to %s' % (desc, tdesc), again, cols)
-    check(got_again == got_inc, 'inc%s is not idempotent on %s: once %s, twice %s', desc, tdesc, got_inc, got_again)
+    got_again = _table_rows(_T('inc%s applied twice to %s' % (desc, tdesc)), again, cols)
+    check(list(got_again) == list(got_inc), 'inc%s is not idempotent on dictable(%s): once %s, twice %s', desc, tdesc, got_inc, got_again)
 
     # ---- classes
     cls = ['n=%s' % ('0' if n == 0 else '1' if n == 1 else '2+'), 'ncols=%i' % len(cols)]
@@ -284,13 +307,13 @@ def run_find(spec):
     snap = _snapshot(d)
     col = spec['col']
     desc, caller, selected = _condition(spec['cond'], data, env)
-    tdesc = short({c: data[c] for c in cols}, 200)
+    tdesc = _T(short({c: data[c] for c in cols}, 200))
     sel = [i for i in range(n) if selected(i)]
     vals = [data[col][i] for i in sel]
     toks = set(vtoken(v) for v in vals)
-    what = 'dictable(%s).find_%s%s' % (tdesc, col, desc)
+    what = _T('dictable(%s).find_%s%s' % (tdesc, col, desc))
     ok, res = call_or(what, (ValueError,), caller, d, 'find_' + col)
-    _unchanged('find_%s%s' % (col, desc), d, snap)
+    _unchanged(_T('find_%s%s' % (col, desc)), d, snap)
     cls = ['ncols=%i' % len(cols), 'cond=' + (spec['cond']['kind'])]
     if len(sel) == 0:
         cls.append('none_selected')
@@ -326,9 +349,9 @@ def run_find(spec):
         kw = dict(extra)
         if find is not None:
             kw['find'] = find
-        w1 = 'dictable(%s).one_or_none%s%s%s' % (tdesc, desc, edesc, '' if find is None else ' find = %s' % find)
+        w1 = _T('dictable(%s).one_or_none%s%s%s' % (tdesc, desc, edesc, '' if find is None else ' find = %s' % find))
         ok1, res1 = call_or(w1, (ValueError,), caller, d, 'one_or_none', kw)
-        _unchanged('one_or_none%s' % desc, d, snap)
+        _unchanged(_T('one_or_none%s' % desc), d, snap)
         if len(sel1) == 0:
             check(ok1 and res1 is None, '%s gave %s although no row is selected (must return None)', w1, res1)
         elif len(sel1) >= 2:
@@ -456,7 +479,7 @@ def _callable_cond(draw, table):
     if fn == 'table':
         nargs = draw(st.integers(1, min(3, len(cols))))
         args = list(draw(st.permutations(cols))[:nargs])
-        true_rows = [i for i, b in enumerate(draw(st.lists(st.booleans(), min_size=n, max_size=n))) if b]
+        true_rows = [i for i, b in enumerate(draw(st.lists(st.sampled_from([True, False]), min_size=n, max_size=n))) if b]
         return dict(kind='callable', fn='table', args=args, true_rows=sorted(true_rows))
     nargs = _CATALOGUE[fn][0]
     if nargs > len(cols):
